@@ -1,6 +1,7 @@
 package main
 
 import (
+	"os"
 	"sync"
 	"fmt"
 	"sort"
@@ -394,8 +395,10 @@ func (e *lfEngine) builtin(fr *lfFrame, st *lfState, x *ssa.Call, name string) l
 			}
 			if ld, ok := sv.(*ssa.UnOp); ok && ld.Op == token.MUL {
 				if bt, ok := ld.Type().Underlying().(*types.Basic); ok && bt.Kind() == types.String {
-					if p, ok := e.val(fr, st, ld.X).(vPtr); ok && p.Obj == e.recvObj {
-						src = "f:" + strings.TrimPrefix(p.Path, ".")
+					if p, ok := e.val(fr, st, ld.X).(vPtr); ok {
+						if pfx, isT := e.tracked[p.Obj]; isT {
+							src = "f:" + pfx + strings.TrimPrefix(p.Path, ".")
+						}
 					}
 				}
 			}
@@ -773,6 +776,30 @@ func (e *lfEngine) elemBits(fr *lfFrame, st *lfState, v ssa.Value, k int64) *bv 
 	return nil
 }
 
+// elemLin returns element k of a slice of a local array as a linear form when
+// the engine holds one (a byte computed from a length, say).
+func (e *lfEngine) elemLin(fr *lfFrame, st *lfState, v ssa.Value, k int64) (Lin, bool) {
+	x, ok := v.(*ssa.Slice)
+	if !ok {
+		return Lin{}, false
+	}
+	p, ok := e.val(fr, st, x.X).(vPtr)
+	if !ok {
+		return Lin{}, false
+	}
+	lo := int64(0)
+	if x.Low != nil {
+		if li, ok := e.val(fr, st, x.Low).(vInt); ok {
+			lo, _ = li.E.isConst()
+		}
+	}
+	key := fmt.Sprintf("%d%s[%s]", p.Obj, p.Path, linConst(lo+k).key())
+	if iv, ok := st.heap[key].(vInt); ok {
+		return iv.E, true
+	}
+	return Lin{}, false
+}
+
 func concatLE(parts []*bv) *bv {
 	out := &bv{}
 	for _, p := range parts {
@@ -844,6 +871,9 @@ func (e *lfEngine) bitsIntercept(fr *lfFrame, st *lfState, x *ssa.Call, name str
 			e.onStore(st, kind, n, v, x.Pos(), bb)
 		}
 	}
+	if os.Getenv("DBG_CALLS") != "" {
+		fmt.Fprintln(os.Stderr, "bitsIntercept:", name, len(args))
+	}
 	switch name {
 	case "(github.com/google/gopacket.SerializeBuffer).PrependBytes", "(github.com/google/gopacket.SerializeBuffer).AppendBytes":
 		kind := "pre"
@@ -902,6 +932,65 @@ func (e *lfEngine) bitsIntercept(fr *lfFrame, st *lfState, x *ssa.Call, name str
 			res = e.withBits(res, b)
 		}
 		return res, true
+	case "(hash.Hash).Write", "(io.Writer).Write":
+		// the hash input is modelled as an append-only byte stream "h": what is written, in order
+		if len(args) != 1 || !cc.IsInvoke() || !isHashHash(cc.Value.Type()) {
+			return nil, false
+		}
+		sv := e.val(fr, st, args[0])
+		ln, okLen := e.asSlice(st, sv, args[0].Type(), "p")
+		cur := linConst(0)
+		if c0, ok := st.heap["#hashlen"].(vInt); ok {
+			cur = c0.E
+		}
+		done := false
+		if n, isK := ln.isConst(); okLen && isK && n >= 0 && n <= 64 {
+			var parts []string
+			var bvs []*bv
+			all := true
+			for k := int64(0); k < n; k++ {
+				if b := e.elemBits(fr, st, args[0], k); b != nil {
+					parts = append(parts, b.render())
+					bvs = append(bvs, b)
+				} else if ev, ok := e.elemLin(fr, st, args[0], k); ok {
+					parts = append(parts, "lin("+e.linString(ev)+")")
+					bvs = append(bvs, nil)
+				} else {
+					all = false
+				}
+			}
+			if all {
+				for k, ptxt := range parts {
+					emit("hash", "h["+e.linString(cur.addConst(int64(k)))+"]", ptxt, bvs[k])
+				}
+				done = true
+			}
+		}
+		if !done {
+			src := e.renderVal(sv)
+			av := args[0]
+			if cv, ok := av.(*ssa.Convert); ok {
+				av = cv.X
+			}
+			if ld, ok := av.(*ssa.UnOp); ok && ld.Op == token.MUL {
+				if bt, ok := ld.Type().Underlying().(*types.Basic); ok && bt.Kind() == types.String {
+					if p, ok := e.val(fr, st, ld.X).(vPtr); ok {
+						if pfx, isT := e.tracked[p.Obj]; isT {
+							src = "f:" + pfx + strings.TrimPrefix(p.Path, ".")
+						}
+					}
+				}
+			}
+			lens := "?"
+			if okLen {
+				lens = e.linString(ln)
+			}
+			emit("hash", "h["+e.linString(cur)+":+"+lens+"]", "copy("+src+")")
+		}
+		if okLen {
+			st.heap["#hashlen"] = vInt{E: cur.add(ln, 1)}
+		}
+		return vTuple{e.fresh(st, types.Typ[types.Int], "n"), vNilable{ID: e.id()}}, true
 	case "(encoding/binary.littleEndian).PutUint16", "(encoding/binary.littleEndian).PutUint32", "(encoding/binary.bigEndian).PutUint16", "(encoding/binary.bigEndian).PutUint32":
 		nb := int64(2)
 		if strings.HasSuffix(name, "32") {
